@@ -34,7 +34,7 @@ CLAIMED = {
              'conversions for every family pair x {0, mid, n}^2 fractional bits and all 12 integer types + bool, both profiles. The From/LossyFrom admissibility table of '
              'convert.rs is not yet regenerated by the translator (the predicate is stated in Lean by hand). '
              'SfxProps/C04Prim.lean: the type-level From/LossyFrom impls between fixed-point types and primitives (int, bool, f32/f64; 287 impl rows extracted by the translator into GeneratedConv.lean and proved sound row by row), exact/floor/nearest-even as documented, instantiated per admissible pair by the harness.'
-             ' SfxProps/C04Cast.lean: the az cast traits of src/cast.rs (Cast, CheckedCast, SaturatingCast, WrappingCast, OverflowingCast, StaticCast; feature az) are these conversions under other names (casts_hold, to_integer, from_integer), StaticCast is Some(exact) exactly when every source value converts (static_cast); own harness bin `cast`, 0.39 M requests, both profiles. SfxProps/C04Spec.lean: convExact characterised without /: the unique destination pattern m with m/2^fd <= x/2^fs < (m+1)/2^fd, and equal to the source value whenever a destination pattern has that value (always when fd >= fs): convExact_is_floor, floor_conv_unique, exact_when_representable, exact_when_widening_frac, holds_by_sentence.',
+             ' SfxProps/C04Cast.lean: the az cast traits of src/cast.rs (Cast, CheckedCast, SaturatingCast, WrappingCast, OverflowingCast, StaticCast; feature az) are these conversions under other names (casts_hold, to_integer, from_integer), StaticCast is Some(exact) exactly when every source value converts (static_cast); own harness bin `cast`, 0.39 M requests, both profiles. SfxProps/C04Spec.lean: convExact characterised without /: the unique destination pattern m with m/2^fd <= x/2^fs < (m+1)/2^fd, and equal to the source value whenever a destination pattern has that value (always when fd >= fs): convExact_is_floor, floor_conv_unique, exact_when_representable, exact_when_widening_frac, holds_by_sentence. SfxProps/C05Spec.lean: float to fixed as a sentence with one solution: exact when the float lies on the grid, otherwise THE grid value at distance at most half a unit, the even pattern on a tie (rneShift_is_nearest_even, nearest_even_unique, floatToGrid_is_nearest, nearest_grid_unique; built on C06Spec).',
         design_ref='7/C04', note=COMMON_NOTE, technique='Lean 4 proof over executable model + differential correspondence'),
     'C05': dict(
         text='Theorem SfxProps.C05.holds (full strength, f32 and f64, all 507 layouts): float->fixed gives the grid value nearest to the exact float value (ties to even) under '
